@@ -354,6 +354,23 @@ theorem initVars_preserve (fbs : List FbDef) (id : Nat) (vars : List VarDef) :
       intro m hm
       simp only [List.map_cons, List.mem_cons, not_or] at hm
       exact h5 m hm.2
+    | expr ty e =>
+      simp only [hd] at h
+      cases he : e.eval s id with
+      | none => simp [he] at h
+      | some k =>
+        simp only [he] at h
+        obtain ⟨h1, h2, h3, h4, h5, h6⟩ := ih _ _ h (by simpa using hid)
+        refine ⟨by simp [h1], by simp [h2], by simpa using h3, ?_, ?_, ?_⟩
+        · intro j hj hne
+          rw [h4 j (by simpa using hj) hne, getInstance_setInstVar]
+          simp [hne]
+        · intro m hm
+          simp only [List.map_cons, List.mem_cons, not_or] at hm
+          rw [h5 m hm.2, getInstVar_setInstVar_other]
+          exact Or.inr (fun e => hm.1 e.symm)
+        · intro hs
+          exact h6 (by rw [isSome_getInstance_setInstVar]; exact hs)
     | fb ty =>
       simp only [hd] at h
       cases hc : createFbInstance fbs s ty with
@@ -384,6 +401,7 @@ theorem initVars_content (fbs : List FbDef) (id : Nat) (vars : List VarDef) :
         match d.init with
         | .plain v => s'.getInstVar id d.name = some v
         | .ext => True
+        | .expr ty _ => ∃ k, s'.getInstVar id d.name = some (.num ty k)
         | .fb ty => ∃ j fb, s'.getInstVar id d.name = some (.inst j) ∧ s.nextId ≤ j ∧ j < s'.nextId ∧
             j ≠ id ∧ findFb fbs ty = some fb ∧
             s'.getInstance j = some { tyName := fb.name, vars := membersMap [] fb.members } := by
@@ -408,6 +426,20 @@ theorem initVars_content (fbs : List FbDef) (id : Nat) (vars : List VarDef) :
       rcases List.mem_cons.1 hd with rfl | hmem
       · simp [hd0]
       · exact ih _ _ h hid hsome hnd.2 d hmem
+    | expr ty e =>
+      simp only [hd0] at h
+      cases he : e.eval s id with
+      | none => simp [he] at h
+      | some k =>
+        simp only [he] at h
+        have hpres := initVars_preserve fbs id rest _ _ h (by simpa using hid)
+        rcases List.mem_cons.1 hd with rfl | hmem
+        · simp only [hd0]
+          refine ⟨k, ?_⟩
+          rw [hpres.2.2.2.2.1 _ hnd.1]
+          exact getInstVar_setInstVar_same _ _ _ _ hsome
+        · have := ih _ _ h (by simpa using hid) (by rw [isSome_getInstance_setInstVar]; exact hsome) hnd.2 d hmem
+          simpa using this
     | fb ty =>
       simp only [hd0] at h
       cases hc : createFbInstance fbs s ty with
@@ -433,6 +465,7 @@ theorem initVars_content (fbs : List FbDef) (id : Nat) (vars : List VarDef) :
           cases hdi : d.init with
           | plain v => simpa [hdi] using this
           | ext => trivial
+          | expr ty' e' => simpa [hdi] using this
           | fb ty' =>
             simp only [hdi] at this ⊢
             obtain ⟨j, fb', a1, a2, a3, a4, a5, a6⟩ := this
@@ -446,6 +479,7 @@ theorem createProgramInstance_spec (fbs : List FbDef) (s s' : Storage) (p : Prog
       match d.init with
       | .plain v => s'.getInstVar id d.name = some v
       | .ext => True
+      | .expr ty _ => ∃ k, s'.getInstVar id d.name = some (.num ty k)
       | .fb ty => ∃ j fb, s'.getInstVar id d.name = some (.inst j) ∧ s.nextId < j ∧ j < s'.nextId ∧
           findFb fbs ty = some fb ∧
           s'.getInstance j = some { tyName := fb.name, vars := membersMap [] fb.members } := by
@@ -475,6 +509,7 @@ theorem createProgramInstance_spec (fbs : List FbDef) (s s' : Storage) (p : Prog
       cases hdi : d.init with
       | plain v => simpa [hdi] using this
       | ext => trivial
+      | expr ty e => simpa [hdi] using this
       | fb ty =>
         simp only [hdi] at this ⊢
         obtain ⟨j, fb, a1, a2, a3, a4, a5, a6⟩ := this
@@ -656,6 +691,7 @@ def ProgPost (fbs : List FbDef) (s s' : Storage) (p : ProgDef) (id : Nat) : Prop
     match d.init with
     | .plain v => s'.getInstVar id d.name = some v
     | .ext => True
+    | .expr ty _ => ∃ k, s'.getInstVar id d.name = some (.num ty k)
     | .fb ty => ∃ j fb, s'.getInstVar id d.name = some (.inst j) ∧ s.nextId ≤ j ∧ j < s'.nextId ∧
         findFb fbs ty = some fb ∧
         s'.getInstance j = some { tyName := fb.name, vars := membersMap [] fb.members }
@@ -669,6 +705,7 @@ theorem ProgPost.weaken {fbs : List FbDef} {s0 s s' : Storage} {p : ProgDef} {id
   cases hi : d.init with
   | plain v => simpa [hi] using this
   | ext => trivial
+  | expr ty e => simpa [hi] using this
   | fb ty =>
     simp only [hi] at this ⊢
     obtain ⟨j, fb, b1, b2, b3, b4, b5⟩ := this
@@ -717,6 +754,10 @@ theorem recreatePrograms_spec (fbs : List FbDef) (ps : List ProgDef) :
               simp only [hi] at this ⊢
               rw [t1.getInstVar id0 d.name (by simp; omega)]; simpa using this
             | ext => trivial
+            | expr ty e =>
+              simp only [hi] at this ⊢
+              obtain ⟨k, hk⟩ := this
+              exact ⟨k, by rw [t1.getInstVar id0 d.name (by simp; omega)]; simpa using hk⟩
             | fb ty =>
               simp only [hi] at this ⊢
               obtain ⟨j, fb, b1, b2, b3, b4, b5⟩ := this
@@ -1399,6 +1440,7 @@ def expP (fbs : List FbDef) (d : VarDef) (member : Option Nat) : Option Val :=
   | .plain v, none => some (obsVal v)
   | .plain _, some _ => none
   | .ext, _ => none
+  | .expr _ _, _ => none
   | .fb _, none => some (.inst 0)
   | .fb ty, some k =>
     match findFb fbs ty with
@@ -1409,8 +1451,12 @@ def GInit.plainOk : GInit → Bool
   | .value v => !v.isInst
   | .fb _ => true
 
+/-- Constant initialisers only: an initialiser EXPRESSION (`.expr`) has no value that the
+declarations alone determine; what a restart does with it is `restart_expr_var` /
+`c09_expr_init_after_restart`. -/
 def VInit.plainOk : VInit → Bool
   | .plain v => !v.isInst
+  | .expr _ _ => false
   | _ => true
 
 /-- Initial values are values, not instance handles (the compiler never produces such a
@@ -1480,6 +1526,7 @@ theorem cold_paths (fbs : List FbDef) (metas : List GlobalMeta) (progs : List Pr
         simp only
         exact obs_member_of_not_inst s2 v k (by have := hpl.vars p hpp d hd; simpa [hi, VInit.plainOk] using this)
     | ext => exact absurd hi hne
+    | expr ty e => exact absurd (hpl.vars p hpp d hd) (by simp [hi, VInit.plainOk])
     | fb ty =>
       simp only [hi] at post
       obtain ⟨j, fb, a1, a2, a3, a4, a5⟩ := post
